@@ -73,6 +73,18 @@ def gen_cases(ctx):
                 ops += [("b", 0, x, x, x, x, 1.0), ("n", 1, x)]
             huge.append(Case("one_%s_p%d_huge" % (ind, p), ops, dump=(),
                               meta={"ind": ind, "params": pr[:3], "style": "oneprice", "n": len(xs), "fam": "oneprice_huge"}))
+    # ... and one-price bars carrying NaN / infinities (seed-independent), for FastStochastic / SlowStochastic only: their two paths take
+    # the same step for EVERY float (C10_fast/slow_one_price_binary64); TrueRange's bar path legitimately differs from the scalar path
+    # after a NaN close (max3 drops the NaN, |x - NaN| does not), so it is claimed — and proved — for finite prices only
+    for ind in ("FAST", "SLOW"):
+        for p in (2, 3):
+            pr = (p, 2 if ind == "SLOW" else 0, 0, 0.0)
+            xs = [1.0, 2.0, float("nan"), 3.0, float("inf"), 2.0, float("-inf"), 1.0, 1.5, 2.5, float("nan"), float("nan"), 4.0, 5.0, 6.0, 7.0]
+            ops = [new_op(0, ind, pr), new_op(1, ind, pr)]
+            for x in xs:
+                ops += [("b", 0, x, x, x, x, 1.0), ("n", 1, x)]
+            huge.append(Case("one_%s_p%d_nonfinite" % (ind, p), ops, dump=(),
+                             meta={"ind": ind, "params": pr[:3], "style": "oneprice", "n": len(xs), "fam": "oneprice_huge"}))
     tiny = [Case(c.cid + "_x2^-60", scale_ops(c.ops, -60), dump=c.dump, meta=dict(c.meta, scale=-60)) for c in cases if c.meta["fam"] == "oneprice"]
     return with_scaled(cases, r) + tiny + huge
 
